@@ -260,7 +260,7 @@ Proof. exact frexp_recompose_lemma. Qed.
 Print Assumptions frexp_recompose.
 
 Theorem ldexp_spec : forall num (toInt : num -> Z) (Ldexp : num -> Z -> num) x e rest,
-  mathLdexp num Ldexp toInt (x :: e :: rest) = MOk [Ldexp x (toInt e)] /\
+  mathLdexp num Ldexp toInt (x :: e :: rest) = MOk [Ldexp x (clamp_exp (toInt e))] /\
   mathLdexp num Ldexp toInt [x] = MErr /\ mathLdexp num Ldexp toInt [] = MErr.
 Proof. exact ldexp_spec_lemma. Qed.
 Print Assumptions ldexp_spec.
@@ -303,3 +303,47 @@ Theorem frexp_ref_recompose : forall neg m e, 0 < m ->
   2 ^ (k - 1) <= m < 2 ^ k /\ (- k) + (e + k) = e.
 Proof. exact ref_frexp_exact. Qed.
 Print Assumptions frexp_ref_recompose.
+
+(* math.ldexp: the Z-level rounding that stands in for Go's math.Ldexp when the model is run *)
+From GL Require Import Str.MathWLdexp.
+
+(* frexp's parts recompose exactly through ldexp, for every binary64 x = (-1)^neg * m * 2^e *)
+Theorem ldexp_ref_frexp_roundtrip : forall neg m e,
+  0 < m < 2 ^ 53 -> -1074 <= e -> bitlen m + e <= 1024 ->
+  ref_ldexp_z (fst (ref_frexp (NFin neg m e))) (snd (ref_frexp (NFin neg m e))) = NFin neg m e.
+Proof. exact ref_ldexp_frexp_lemma. Qed.
+Print Assumptions ldexp_ref_frexp_roundtrip.
+
+(* a product x * 2^k that binary64 holds is returned exactly *)
+Theorem ldexp_ref_exact : forall neg m e k,
+  0 < m < 2 ^ 53 -> -1074 <= e + k -> bitlen m + (e + k) <= 1024 ->
+  ref_ldexp_z (NFin neg m e) k = NFin neg m (e + k).
+Proof. exact ref_ldexp_exact_lemma. Qed.
+Print Assumptions ldexp_ref_exact.
+
+(* otherwise it is rounded once to the nearest binary64, ties to even, zero and the infinity at the ends *)
+Theorem ldexp_ref_rounds : forall neg m e k, 0 < m ->
+  let E := e + k in
+  let q := Z.max (E + bitlen m - 53) (-1074) in
+  E < q ->
+  let m' := rne_shift m (q - E) in
+  2 * Z.abs (m - m' * 2 ^ (q - E)) <= 2 ^ (q - E) /\
+  (2 * Z.abs (m - m' * 2 ^ (q - E)) = 2 ^ (q - E) -> Z.even m' = true) /\
+  ref_ldexp_z (NFin neg m e) k =
+    (if m' =? 0 then NFin neg 0 0 else if 1024 <? bitlen m' + q then NInf neg else NFin neg m' q).
+Proof. exact ref_ldexp_rounds_lemma. Qed.
+Print Assumptions ldexp_ref_rounds.
+
+(* a finite result is a binary64 number with the sign of x *)
+Theorem ldexp_ref_format : forall neg m E s m' E', 0 <= m ->
+  round64 neg m E = NFin s m' E' ->
+  s = neg /\ 0 <= m' <= 2 ^ 53 /\ (m' = 0 \/ (-1074 <= E' /\ bitlen m' + E' <= 1024)).
+Proof. exact round64_format. Qed.
+Print Assumptions ldexp_ref_format.
+
+(* mathLdexp's clamp of the exponent to +-4096 (guard against math.Ldexp's exponent sum wrapping
+   around) never changes the result on a binary64 argument *)
+Theorem ldexp_ref_clamp : forall neg m e k, 0 <= m < 2 ^ 53 -> -1074 <= e <= 971 ->
+  ref_ldexp_z (NFin neg m e) (clamp_exp k) = ref_ldexp_z (NFin neg m e) k.
+Proof. exact ref_ldexp_clamp_lemma. Qed.
+Print Assumptions ldexp_ref_clamp.
